@@ -77,10 +77,39 @@ Definition data_read (f : lfile) (off : N) (n : nat) : list N :=
   let got := firstn k (skipn (N.to_nat (off - DATA0)) (f_data f)) in
   got ++ repeat 0 (k - length got).
 
+(** A forward reader over the data area (what a seek followed by successive reads sees): the
+    written bytes not yet consumed and the number of zero bytes behind them up to the end of the
+    file.  [rdr_open] costs O(offset) once; every read costs O(bytes read).
+    (ScanFileProofs.rdr_read_spec: it returns exactly [data_read] at the successive positions.) *)
+Record rdr : Type := mkRdr { rd_bytes : list N; rd_zeros : N }.
+
+Definition rdr_open (f : lfile) (pos : N) : rdr :=
+  let rel := pos - DATA0 in
+  let dl := N.of_nat (length (f_data f)) in
+  if rel <? dl then mkRdr (skipn (N.to_nat rel) (f_data f)) (f_len f - DATA0 - dl)
+  else mkRdr [] (f_len f - pos).
+
+(** file.read(&mut [0; n]): min(n, remaining) bytes *)
+Definition rdr_read (r : rdr) (n : nat) : list N * rdr :=
+  let got := firstn n (rd_bytes r) in
+  if (length got =? n)%nat then (got, mkRdr (skipn n (rd_bytes r)) (rd_zeros r))
+  else
+    let z := N.min (N.of_nat (n - length got)) (rd_zeros r) in
+    (got ++ repeat 0 (N.to_nat z), mkRdr [] (rd_zeros r - z)).
+
+(** seek forward by k bytes *)
+Definition rdr_skip (r : rdr) (k : nat) : rdr := snd (rdr_read r k).
+
 (** in-place write into a "rest is zero" byte list *)
-Definition write_at (l : list N) (off : nat) (bs : list N) : list N :=
-  let l' := l ++ repeat 0 (off - length l) in
-  firstn off l' ++ bs ++ skipn (off + length bs) l'.
+Fixpoint write_at (l : list N) (off : nat) (bs : list N) : list N :=
+  match off with
+  | O => bs ++ skipn (length bs) l
+  | S o =>
+      match l with
+      | [] => 0 :: write_at [] o bs
+      | x :: l' => x :: write_at l' o bs
+      end
+  end.
 
 Definition data_write (f : lfile) (off : N) (bs : list N) : lfile :=
   mkFile (f_hdr f) (f_idx f) (write_at (f_data f) (N.to_nat (off - DATA0)) bs)
@@ -149,19 +178,19 @@ Definition read_indexs (b : list N) (first : N * N) (interval : N) : res (list (
 
 (** move_to_index_by_count: the loop over successive 1024-byte reads.  At read_len = 0 the source
     returns msg_count WITHOUT the records counted so far ([base]); kept as is. *)
-Fixpoint scan_file (fuel : nat) (f : lfile) (pos : N) (r : mbr) (c count cursor base : N)
+Fixpoint scan_file (fuel : nat) (rd : rdr) (r : mbr) (c count cursor base : N)
   : res (N * N) :=
   match fuel with
   | O => Err
   | S fu =>
-      match data_read f pos 1024 with
-      | [] => Ok (cursor, base)
-      | ch =>
+      match rdr_read rd 1024 with
+      | ([], _) => Ok (cursor, base)
+      | (ch, rd') =>
           res_bind (mbr_append r ch) (fun r1 =>
           res_bind (drain_count (S (S (en r1 - st r1))) r1 c count cursor) (fun '(hit, c', cur', r2) =>
           if hit then Ok (cur', base + c')
           else if mbr_at_end_marker r2 then Ok (cur', base + c')
-          else scan_file fu f (pos + N.of_nat (length ch)) r2 c' count cur' base))
+          else scan_file fu rd' r2 c' count cur' base))
       end
   end.
 
@@ -173,14 +202,16 @@ Definition move_to_index_by_count (f : lfile) (ix : N * N) (start count : N) : r
   else
     let msg_count := fst ix - start in
     if count =? 0 then Ok (data_cursor, msg_count)        (* repair of defect 2 *)
-    else scan_file (scan_fuel f data_cursor) f data_cursor mbr_new 0 count data_cursor msg_count.
+    else scan_file (scan_fuel f data_cursor) (rdr_open f data_cursor) mbr_new 0 count data_cursor msg_count.
 
 Definition move_to_end (f : lfile) (ix : N * N) (start : N) : res (N * N) :=
   move_to_index_by_count f ix start 65535.
 
-(** FileMessageReader over the sparse file: read_len / read_index_position *)
-Definition pos_read_len (f : lfile) (pos : N) : res N :=
-  let got := data_read f pos 10 in
+(** FileMessageReader over the sparse file: read_len / read_index_position.  [read_len] reads 10
+    bytes at the current position and seeks back; [read_next_position] then seeks forward by the
+    frame length. *)
+Definition pos_read_len (rd : rdr) : res N :=
+  let got := fst (rdr_read rd 10) in
   if (length got =? 0)%nat then Err
   else
     match read_varint (got ++ repeat 0 (10 - length got)) 0 with
@@ -189,11 +220,11 @@ Definition pos_read_len (f : lfile) (pos : N) : res N :=
     | Panic => Panic
     end.
 
-Fixpoint pos_skip (k : nat) (f : lfile) (pos : N) : res (N * N) :=
-  res_bind (pos_read_len f pos) (fun len =>
+Fixpoint pos_skip (k : nat) (rd : rdr) (pos : N) : res (N * N * rdr) :=
+  res_bind (pos_read_len rd) (fun len =>
     match k with
-    | O => Ok (pos, len)
-    | S k' => pos_skip k' f (pos + len)
+    | O => Ok (pos, len, rd)
+    | S k' => pos_skip k' (rdr_skip rd (N.to_nat len)) (pos + len)
     end).
 
 (** get_start_index: binary search by log_index over a strictly increasing list = the last
@@ -224,7 +255,7 @@ Fixpoint drain_dec (fuel : nat) (r : mbr) (c : N) (acc : list lrec) : res (N * l
       end
   end.
 
-Fixpoint read_loop (fuel : nat) (f : lfile) (pos : N) (r : mbr) (c : N) (acc : list lrec)
+Fixpoint read_loop (fuel : nat) (rd : rdr) (r : mbr) (c : N) (acc : list lrec)
   : res (list lrec) :=
   match fuel with
   | O => Err
@@ -232,10 +263,9 @@ Fixpoint read_loop (fuel : nat) (f : lfile) (pos : N) (r : mbr) (c : N) (acc : l
       if c =? 0 then Ok (rev acc)
       else
         res_bind (drain_dec (S (S (en r - st r))) r c acc) (fun '(c', acc', r1) =>
-        match data_read f pos 1024 with
-        | [] => Ok (rev acc')
-        | ch => res_bind (mbr_append r1 ch) (fun r2 =>
-                  read_loop fu f (pos + N.of_nat (length ch)) r2 c' acc')
+        match rdr_read rd 1024 with
+        | ([], _) => Ok (rev acc')
+        | (ch, rd') => res_bind (mbr_append r1 ch) (fun r2 => read_loop fu rd' r2 c' acc')
         end)
   end.
 
@@ -245,11 +275,11 @@ Definition read_records (s : lim) (start end_ : N) : res (list lrec) * lim :=
   if end_ <=? start then (Ok [], s)
   else
     let ix := get_start_index s start in
-    match pos_skip (N.to_nat (start - fst ix)) (l_file s) (snd ix) with
-    | Ok (p, _) =>
+    match pos_skip (N.to_nat (start - fst ix)) (rdr_open (l_file s) (snd ix)) (snd ix) with
+    | Ok (p, _, rd) =>
         let s' := mkLim (l_file s) (l_indexs s) (l_start s) (l_icur s) (l_flen s) (l_dcur s) (l_cnt s)
                         (l_lterm s) (l_cic s) true 0 (l_split s) in
-        (read_loop (S (scan_fuel (l_file s) p)) (l_file s) p mbr_new (end_ - start) [], s')
+        (read_loop (S (scan_fuel (l_file s) p)) rd mbr_new (end_ - start) [], s')
     | Err => (Err, s)
     | Panic => (Panic, s)
     end.
